@@ -39,6 +39,10 @@ claim("C10", "Coq proof (host-failure tracking in the monitor semantics, for eve
       "Proof: for every host, the SZDD decompress script returns last_error = status, and status OK implies that no callback failed anywhere in the script (open/alloc NULL, read error, short or failed write, seek failure) - so an OK result is the failure-free result; wrong SZDD signatures are refused with MSPACK_ERR_SIGNATURE. Tie: identical callback traces/statuses/outputs of port and C under every single fault. CAB/CHM/KWAJ/OAB: each fired single fault on every corpus scenario is compared op by op with the failure-free run on the C side only (partial).",
       NOTE, "4/C10")
 
+claim("C08", "Coq proof (cache-coherence invariant of the decoder-reuse rule, any history) + random extraction histories vs a fresh decompressor on the C library",
+      "Proof: over an abstract folder (plaintext, optional damage point, frame granularity) and the reuse rule of cabd_extract (same folder, offset not behind the cursor, live decoder; permanent decoder errors; empty members skipped), every call after ANY history returns what a fresh decoder returns; intact folders always yield the exact slice. The rule is an abstraction of cabd_extract/chmd_extract, tied to the C by the history-vs-fresh oracle on generated cabinets, sets and CHMs (one third with a damaged folder), not by a line-by-line port.",
+      NOTE, "4/C08")
+
 def main():
     props = [json.loads(l)["id"] for l in open(os.path.join(V, "properties.jsonl"))]
     # only claim what has a check module
